@@ -91,6 +91,17 @@ def patch_namespace():
         argparse.Namespace = namespace_class
 
 
+def namespaces_as_dicts(val: Any) -> Any:
+    """Converts to dictionaries the namespaces found in a value, also inside nested lists, tuples and dicts."""
+    if isinstance(val, Namespace):
+        return val.as_dict()
+    if isinstance(val, dict):
+        return {k: namespaces_as_dicts(v) for k, v in val.items()}
+    if type(val) in {list, tuple}:
+        return type(val)(namespaces_as_dicts(v) for v in val)
+    return val
+
+
 class Namespace(argparse.Namespace):
     """Extension of argparse's Namespace to support nesting and subscript access."""
 
@@ -214,13 +225,7 @@ class Namespace(argparse.Namespace):
         """Converts the nested namespaces into nested dictionaries."""
         dic = {}
         for key, val in vars(self).items():
-            if isinstance(val, Namespace):
-                val = val.as_dict()
-            elif isinstance(val, dict) and val != {} and all(isinstance(v, Namespace) for v in val.values()):
-                val = {k: v.as_dict() for k, v in val.items()}
-            elif isinstance(val, list) and val != [] and all(isinstance(v, Namespace) for v in val):
-                val = [v.as_dict() for v in val]
-            dic[del_clash_mark(key)] = val
+            dic[del_clash_mark(key)] = namespaces_as_dicts(val)
         return dic
 
     def as_flat(self) -> argparse.Namespace:
